@@ -114,6 +114,8 @@ type Hist struct {
 	ServerCloseCall  int64
 	ServerCloseRet   int64
 	ServerClosed     bool // Server.Close returned
+	CloseStuck       string
+	ServerClosedAtQ  bool // ... by the first quiescence point after the call (before any stalled reader was resumed)
 	LeftAfterClients []simrt.TaskInfo
 	LeftAtEnd        []simrt.TaskInfo
 	HeldAtEnd        []string
@@ -419,6 +421,9 @@ func (r *run) client(st *cstate) {
 				p.WillQoS = op.Will.QoS
 				p.WillRetain = op.Will.Retain
 				p.WillMessage = payload(srcWill+st.idx, c.Idx, op.Will.Size)
+				if op.Will.Ver > 0 {
+					p.WillMessage = payload(srcWill+st.idx, 1000+op.Will.Ver, op.Will.Size)
+				}
 			}
 			if op.Auth {
 				p.HasUser, p.HasPass = true, true
@@ -880,4 +885,8 @@ func (r *run) closeServer() {
 		h.ServerCloseRet = s.Stamp()
 	})
 	s.Quiesce()
+	h.ServerClosedAtQ = h.ServerClosed
+	if !h.ServerClosed {
+		h.CloseStuck = simrt.FormatTasks(s.Tasks()) + fmt.Sprintf(" held locks: %v", s.HeldLocks())
+	}
 }
